@@ -29,6 +29,20 @@ def family(quick, fmt="glyf_colr_1", name="colr"):
                      ["--color_format", fmt])
 
 
+def family_fmt(quick):
+    """Option change = colour format (vector COLR <-> OT-SVG): a different set of rules and intermediate files on the
+    same build directory and the same output path."""
+    srcs = ["src/emoji_u1f600.svg", "src/emoji_u1f601.svg"]
+    return bm.Family("fmt", srcs, {"colr": ["--color_format", "glyf_colr_1"], "svg": ["--color_format", "picosvg"]}, [])
+
+
+def family_bitmap():
+    """Option change = bitmap options on a bitmap format (resolution reaches the PNG rule's command line)."""
+    srcs = ["src/emoji_u1f600.svg", "src/emoji_u1f601.svg"]
+    return bm.Family("bitmap", srcs, {"r48": ["--color_format", "cbdt", "--bitmap_resolution", "48"],
+                                      "r64": ["--color_format", "cbdt", "--bitmap_resolution", "64"]}, [])
+
+
 def select_histories(records, n, r):
     """Dedupe; keep histories with >=2 invocations and a user operation; cover every operation and fault kind
     (each followed by a later successful invocation where possible) before filling up at random."""
@@ -190,6 +204,12 @@ def run(chk):
         base = run_models(chk, fam, data, sd, quick)
         known_finding_model(chk, fam, data, sd, work, quick)
         replay_sample(chk, fam, data, sd, work, base, 12 if quick else 120)
+        # further option kinds of the property's quantifier: colour format, bitmap options
+        for fam2, n2 in [(family_fmt(quick), 6 if quick else 60)] + ([] if quick else [(family_bitmap(), 40)]):
+            w2 = work / fam2.name
+            data2 = bm.extract_family(fam2, w2 / "x")
+            base2 = run_models(chk, fam2, data2, w2 / "spec", quick)
+            replay_sample(chk, fam2, data2, w2 / "spec", w2, base2, n2, pid="C09-" + fam2.name)
     chk.assumptions += [
         "ninja 1.13 dirtiness rules as transcribed in Build.tla (validated against real ninja on every replayed "
         "successful invocation: executed edge set must equal the model's)",
